@@ -345,6 +345,13 @@ class EvolvableCNN(EvolvableModule):
                             :min_0, :min_1
                         ]
 
+        # Buffers of unchanged size (e.g. normalisation statistics) are carried over too
+        old_net_buffers = dict(old_net.named_buffers())
+        for key, buffer in new_net.named_buffers():
+            old_buffer = old_net_buffers.get(key)
+            if old_buffer is not None and old_buffer.size() == buffer.size():
+                buffer.data = old_buffer.data
+
         return new_net
 
     def init_weights_gaussian(self, std_coeff: float = 4) -> None:
